@@ -7,6 +7,7 @@ linked object), and evaluation of the property itself on every real output
 specification Spec.Link through the driver)."""
 import io
 import json
+import time
 
 from . import common
 
@@ -1004,7 +1005,7 @@ def gen_image_case(rng):
     return {"base": base, "sections": secs}
 
 
-def check_images(ctx, n):
+def prepare_images(ctx, n):
     from ppci.binutils.objectfile import Image, Section
     cases = [{"base": 0, "sections": []},
              {"base": 4, "sections": [sec("a", b"\x01\x02", 1, 4), sec("b", b"", 1, 6), sec("c", b"\x03", 1, 6)]},
@@ -1042,7 +1043,11 @@ def check_images(ctx, n):
                 a = s["address"] - c["base"]
                 if d[a:a + len(s["data"]) // 2].hex() != s["data"]:
                     ctx.fail("Image.data:section-bytes-differ", "Image.data restricted to a section differs from the section", c)
-    model = ctx.driver("C12", reqs)
+    return cases, reqs, impl
+
+
+def compare_images(ctx, prepared, model):
+    cases, reqs, impl = prepared
     for c, rq, i, m in zip(cases, reqs, impl, model):
         ctx.count("eval_image")
         ctx.count("image_" + i.split()[0] + ("" if i.startswith("ok") else "_" + i.split()[1]))
@@ -1086,15 +1091,17 @@ def run_impls(cases):
     return impls
 
 
-def run_cases(ctx, cases, impls=None):
-    """run the real link() on every case, then the model and the spec in one driver call"""
+def run_cases(ctx, cases, impls=None, extra=()):
+    """run the real link() on every case, then the model and the spec in one driver call;
+    `extra` request lines ride along in the same call, their replies are returned"""
     if impls is None:
         impls = run_impls(cases)
     reqs = []
     for c in cases:
         p = req_payload(c)
         reqs += ["link " + p, "spec " + p]
-    replies = ctx.driver("C12", reqs)
+    replies = ctx.driver("C12", reqs + list(extra))
+    extra_replies = replies[len(reqs):]
     results = []
     for idx, c in enumerate(cases):
         (impl, objs, observed) = impls[idx]
@@ -1158,11 +1165,14 @@ def run_cases(ctx, cases, impls=None):
             ctx.sample({"tag": c.get("tag"), "request": reqs[2 * idx][:400], "impl": outcome,
                         "model": lr[:200], "spec": sr[:200]})
         results.append((c, impl))
+    if extra:
+        return results, extra_replies
     return results
 
 
 def check(ctx):
     rng = ctx.rng
+    t0 = time.time()
     cases = corpus()
     ctx.count("corpus_cases", len(cases))
     impls = run_impls(cases)
@@ -1179,11 +1189,19 @@ def check(ctx):
         for c, (impl, _objs, _obs) in zip(batch, res):
             if c["partial"] and impl[0] == "ok" and len(prev_partials) < 60:
                 prev_partials.append(obj_to_case_obj(impl[1]))
+    t1 = time.time()
+    prepared = prepare_images(ctx, 3000 if ctx.thorough else 300)
     step = 1000
     for i in range(0, len(cases), step):
-        run_cases(ctx, cases[i:i + step], impls[i:i + step])
-    check_images(ctx, 3000 if ctx.thorough else 300)
+        if i == 0:
+            _, img_replies = run_cases(ctx, cases[:step], impls[:step], extra=prepared[1])
+            compare_images(ctx, prepared, img_replies)
+        else:
+            run_cases(ctx, cases[i:i + step], impls[i:i + step])
+    t2 = time.time()
     probe_negative(ctx, 400 if ctx.thorough else 40)
+    ctx.extra_cov["phase_seconds"] = {"real_linker": round(t1 - t0, 1), "lean_driver_and_diff": round(t2 - t1, 1),
+                                      "negative_probe": round(time.time() - t2, 1)}
     ctx.extra_cov["exhaustive"] = False
 
 
